@@ -427,10 +427,27 @@ Qed.
 Ltac nframe := eapply invN_frame; [first [apply Nrel_ret | apply Nrel_setk | apply Nrel_refl]|].
 Ltac hr_n := unfold setk; apply head_run_neutral; [intro th; repeat split | auto].
 
+Lemma invN_wait_all_op : forall progs s v c f, Inv1 s -> Inv2 s -> InvN s -> head_run s v -> InvN (wait_all_op progs s v c f).
+Proof.
+  intros progs s v c f I1 I2 I Hr. unfold wait_all_op, getth.
+  assert (W : InvN (wait_check progs s v c f)).
+  { unfold wait_check, getth, getvc. destruct (wait_cond s v); [|nframe; auto].
+    destruct (v_sleepq (s_vc s v)).
+    - apply invN_yield; [now apply inv1_setk|nframe; auto|hr_n|intro; exact Logic.I].
+    - destruct (expired _ _).
+      + apply invN_yield; [now apply inv1_setk|nframe; auto|hr_n|intro; exact Logic.I].
+      + destruct (lock_free _); auto. apply invN_sleep; [now apply inv1_setk|nframe; auto|hr_n|intro; exact Logic.I]. }
+  destruct (Nat.eqb c v); [|destruct f; [apply (invN_frame s); [apply Nrel_same; reflexivity|auto]|nframe; auto]].
+  destruct (th_k (s_th s c)) as [|[|[|k]]]; auto.
+  - pose proof (Nrel_sen s c) as X. destruct (set_error_number s c) as [[s1 r] e]. cbn in X.
+    nframe. eapply invN_frame; eauto.
+  - nframe; auto.
+Qed.
+
 Lemma invN_exec_op : forall progs s v c o, Inv1 s -> Inv2 s -> InvN s -> head_run s v -> InvN (exec_op progs s v c o).
 Proof.
   intros progs s v c o I1 I2 I Hr. unfold exec_op, getth, getvc.
-  destruct o as [d| |j e|j jn ws|j| | |j|j u].
+  destruct o as [d| |j e|j jn ws|j| | |j|j u| |]; try now apply invN_wait_all_op.
   - destruct (th_k (s_th s c)) as [|[|k]].
     + destruct (expired _ _).
       * apply invN_yield; [now apply inv1_setk|nframe; auto|hr_n|intro; exact Logic.I].
@@ -492,9 +509,10 @@ Qed.
 
 Lemma invN_step : forall progs s l, Inv1 s -> Inv2 s -> InvN s -> InvN (step progs s l).
 Proof.
-  intros progs s l I1 I2 I. unfold step. destruct (s_stuck s); [exact I|].
+  intros progs s l I1 I2 I. unfold step. destruct (s_stuck s); [exact I|]. destruct (frozen _ _ _); [exact I|].
   destruct l as [v|v|v|v u t|d].
-  - destruct (Nat.ltb _ _); [|exact I]. now apply invN_step_vcpu.
+  - destruct (Nat.ltb _ _); [|exact I].
+    destruct (pend_to_offline _ _ _); [apply (invN_frame s); [apply Nrel_same; reflexivity|exact I]|]. now apply invN_step_vcpu.
   - destruct (_ && _); [|exact I]. unfold do_drain. now apply invN_drain_list.
   - destruct (_ && _); [|exact I]. eapply invN_frame; [apply Nrel_resume|exact I].
   - destruct (_ && _); [|exact I]. now apply invN_steal.
